@@ -39,9 +39,17 @@ type Result struct {
 	Hang    string `json:"hang,omitempty"`
 }
 
+// JobSet is one scheduling unit: a single case, or a sibling group whose
+// members are created in the given order before any of them is used.
+type JobSet struct {
+	Done      bool  `json:"done,omitempty"`
+	Jobs      []Job `json:"jobs,omitempty"`
+	SharedTLS bool  `json:"shared_tls,omitempty"` // all members are built from one *tls.Config
+}
+
 type Req struct {
-	Op  string  `json:"op"` // next
-	Res *Result `json:"res,omitempty"`
+	Op  string   `json:"op"` // next
+	Res []Result `json:"res,omitempty"`
 }
 
 // childMain is the workload: it runs inside `strace -f`, contains no harness
@@ -80,7 +88,7 @@ func childMain(args []string) {
 			defer conn.Close()
 			enc := json.NewEncoder(conn)
 			dec := json.NewDecoder(conn)
-			var last *Result
+			var last []Result
 			for {
 				// the parent closes the previous case's listeners and opens the next
 				// one's while this request is pending: the marker bounds that moment
@@ -89,15 +97,15 @@ func childMain(args []string) {
 					fmt.Fprintln(os.Stderr, "child: rpc write:", err)
 					os.Exit(4)
 				}
-				var job Job
-				if err := dec.Decode(&job); err != nil {
+				var set JobSet
+				if err := dec.Decode(&set); err != nil {
 					fmt.Fprintln(os.Stderr, "child: rpc read:", err)
 					os.Exit(4)
 				}
-				if job.Done {
+				if set.Done {
 					return
 				}
-				last = runJob(&job, roots, w)
+				last = runSet(&set, roots, w)
 			}
 		}(w)
 	}
@@ -127,47 +135,81 @@ func buildQuery(id int) []byte {
 	return b.Bytes()
 }
 
-func runJob(job *Job, roots *x509.CertPool, w int) *Result {
-	res := &Result{ID: job.ID}
+// runSet: create every member in order, then one exchange each, then close.
+func runSet(set *JobSet, roots *x509.CertPool, w int) []Result {
+	out := make([]Result, len(set.Jobs))
+	for i := range out {
+		out[i].ID = set.Jobs[i].ID
+	}
 	done := make(chan struct{})
+	res := make([]Result, len(set.Jobs))
 	go func() {
 		defer close(done)
-		marker(fmt.Sprintf("CASE %d BEGIN W%d\n", job.ID, w))
-		defer marker(fmt.Sprintf("CASE %d END W%d\n", job.ID, w))
-		u, err := upstream.NewUpstream(job.Addr, upstream.Opt{
-			DialAddr:     job.DialAddr,
-			Socks5:       job.Socks5,
-			Bootstrap:    job.Bootstrap,
-			BootstrapVer: job.BootVer,
-			SoMark:       job.ID + 1,
-			TLSConfig:    &tls.Config{RootCAs: roots},
-		})
-		if err != nil {
-			res.NewErr = err.Error()
-			return
+		var shared *tls.Config
+		if set.SharedTLS {
+			shared = &tls.Config{RootCAs: roots} // ServerName deliberately left empty
 		}
-		q := buildQuery(job.ID)
-		ctx, cancel := context.WithTimeout(context.Background(), time.Duration(job.TimeoutMS)*time.Millisecond)
-		r, err := u.ExchangeContext(ctx, q)
-		cancel()
-		if err != nil {
-			res.ExchErr = err.Error()
-		} else if r != nil {
-			m := *r
-			if len(m) >= len(q) && m[0] == q[0] && m[1] == q[1] && m[2]&0x80 != 0 && bytes.Equal(m[12:len(q)], q[12:]) {
-				res.ReplyOK = true
-			} else {
-				res.ExchErr = fmt.Sprintf("unexpected reply % x", m)
+		ups := make([]upstream.Upstream, len(set.Jobs))
+		for i := range set.Jobs {
+			job := &set.Jobs[i]
+			res[i].ID = job.ID
+			marker(fmt.Sprintf("CASE %d BEGIN W%d\n", job.ID, w))
+			cfg := shared
+			if cfg == nil {
+				cfg = &tls.Config{RootCAs: roots}
 			}
-			pool.ReleaseBuf(r)
+			u, err := upstream.NewUpstream(job.Addr, upstream.Opt{
+				DialAddr:     job.DialAddr,
+				Socks5:       job.Socks5,
+				Bootstrap:    job.Bootstrap,
+				BootstrapVer: job.BootVer,
+				SoMark:       job.ID + 1,
+				TLSConfig:    cfg,
+			})
+			if err != nil {
+				res[i].NewErr = err.Error()
+				continue
+			}
+			ups[i] = u
 		}
-		_ = u.Close()
+		for i, u := range ups {
+			if u == nil {
+				continue
+			}
+			job := &set.Jobs[i]
+			q := buildQuery(job.ID)
+			ctx, cancel := context.WithTimeout(context.Background(), time.Duration(job.TimeoutMS)*time.Millisecond)
+			r, err := u.ExchangeContext(ctx, q)
+			cancel()
+			if err != nil {
+				res[i].ExchErr = err.Error()
+			} else if r != nil {
+				m := *r
+				if len(m) >= len(q) && m[0] == q[0] && m[1] == q[1] && m[2]&0x80 != 0 && bytes.Equal(m[12:len(q)], q[12:]) {
+					res[i].ReplyOK = true
+				} else {
+					res[i].ExchErr = fmt.Sprintf("unexpected reply % x", m)
+				}
+				pool.ReleaseBuf(r)
+			}
+		}
+		for _, u := range ups {
+			if u != nil {
+				_ = u.Close()
+			}
+		}
+		for i := range set.Jobs {
+			marker(fmt.Sprintf("CASE %d END W%d\n", set.Jobs[i].ID, w))
+		}
 	}()
 	select {
 	case <-done:
-	case <-time.After(30 * time.Second):
+		return res
+	case <-time.After(45 * time.Second):
 		// watchdog only: a stuck NewUpstream/Exchange/Close is C07's business
-		return &Result{ID: job.ID, Hang: "case did not finish within 30s"}
+		for i := range out {
+			out[i].Hang = "case did not finish within 45s"
+		}
+		return out
 	}
-	return res
 }
